@@ -773,7 +773,7 @@ Definition StepShape (B : N -> nat) (h' : hstate) (o : list output) : Prop :=
 Theorem step_conservation : forall c h e now d,
   StepShape (fun x => occ x h + cnt x (new_ids e d)) (fst (step c h e now d)) (snd (step c h e now d)).
 Proof.
-  intros c h e now d. unfold step. cbn [fst snd].
+  intros c h e now d. rewrite step_unfold. cbn [fst snd].
   pose proof (fire_due_live c now TICK_FUEL {| hs := h; dr := d; outs := [] |}) as H0.
   set (s0 := fire_due c {| hs := h; dr := d; outs := [] |} now TICK_FUEL) in *. clearbody s0.
   assert (L0 : forall x, live x s0 <= occ x h). { intros x. pose proof (Le_live _ _ x H0) as X. unfold live in X at 2. cbn in X. lia. }
@@ -784,10 +784,10 @@ Proof.
   assert (FinR : forall s' e', Resp (fun x => live x s0) s' ->
             StepShape (fun x => occ x h + cnt x (new_ids e' d)) (hs s') (outs s')).
   { intros s' e' [H|(o0 & na & rid & rb & A1 & A2 & A3 & A4)].
-    - left. intros x. specialize (H x). specialize (L0 x). cbv beta in *. unfold live in *. lia.
+    - left. intros x. specialize (H x). specialize (L0 x). cbv beta. unfold live in H, L0. lia.
     - right. exists o0, na, rid, rb. repeat split; auto. intros x. specialize (A4 x). specialize (L0 x).
-      cbv beta in *. unfold live in *. lia. }
-  destruct e as [ct rid body|na rid rb|na n known|from p|].
+      cbv beta in A4. unfold live in A4, L0. lia. }
+  destruct e as [ct rid body|na rid rb|na n known|from p|]; cbn [step_event].
   - apply Fin. intros x. cbn [new_ids]. rewrite cnt_single.
     pose proof (send_request_live c s0 ct true rid body now) as [_ X]. specialize (X x).
     destruct (send_request c s0 ct true rid body now) as [s1 ok]. cbn [fst snd] in X. specialize (L0 x).
